@@ -551,6 +551,89 @@ func VH18c_repeat() {
 	sock.Close()
 }
 
+// VH18f_deadline_vs_arrival: the awaited message arrives at the very moment the receive deadline expires (both are
+// ready when the receiver wakes up: it may take either), R times in a row on the same socket or context. Whatever
+// each call returned - the message or the timeout - nothing is lost (a message not returned is still there for the
+// next Recv) and the NEXT Recv is not failed by anything left over from the previous one: with nothing queued it is
+// still waiting one tick before its own deadline and returns the timeout exactly at it.
+func VH18f_deadline_vs_arrival() {
+	protos := []string{"pair", "xpair", "pair1", "xpair1", "pull", "xpull", "sub", "xsub", "bus", "xbus", "star", "xstar", "rep", "xrep", "respondent", "xrespondent"}
+	proto := protos[verif.Choice("proto", len(protos))]
+	R := verif.Param("R", 2)
+	lab := "C18/" + proto + "/deadline-vs-arrival"
+	sock := vp.New(proto)
+	type rcv interface {
+		RecvMsg() (*mangos.Message, error)
+		SetOption(string, interface{}) error
+	}
+	var ep rcv = sock
+	if verif.Choice("api", 2) == 1 {
+		c, cerr := sock.OpenContext()
+		if cerr != nil {
+			verif.Assume(false)
+		}
+		ep = c
+		lab += "/context"
+	}
+	if proto == "sub" {
+		verif.Assert(ep.SetOption(mangos.OptionSubscribe, []byte{}) == nil, lab+"/subscribe")
+	}
+	D := time.Second
+	verif.Assert(ep.SetOption(mangos.OptionRecvDeadline, D) == nil, lab+"/set-deadline")
+	side := vt.Listen(sock, "a")
+	peer := side.Peer("p")
+	delivered, returned := 0, 0
+	for i := 0; i < R; i++ {
+		var m *mangos.Message
+		var err error
+		g := verif.Go("recv", func() { m, err = ep.RecvMsg() })
+		verif.Quiesce()
+		if !g.Done() {
+			// the arrival and the expiry of the deadline at the same moment
+			// (a receiver that was woken by the message and is stalled before it has dealt with its timer stays
+			// stalled across the expiry: QuiesceKeep)
+			peer.Deliver(inbound(proto, []byte{byte('0' + i)}))
+			delivered++
+			verif.QuiesceKeep()
+			verif.FireTimerNow()
+			verif.Quiesce()
+		}
+		verif.Assert(g.Done(), lab+"/recv-still-blocked-although-both-the-message-and-the-deadline-came")
+		if !g.Done() {
+			return
+		}
+		if err == nil {
+			returned++
+			verif.Assert(len(m.Body) == 1, lab+"/message-changed")
+		} else {
+			verif.Assert(err == mangos.ErrRecvTimeout, lab+"/error-kind")
+		}
+	}
+	// drain what was delivered but not yet returned: each must still be there
+	for returned < delivered {
+		var err error
+		g := verif.Go("recv-pending", func() { _, err = ep.RecvMsg() })
+		verif.Quiesce()
+		verif.Assert(g.Done() && err == nil, lab+"/message-lost-when-it-arrived-together-with-the-deadline")
+		if !g.Done() || err != nil {
+			return
+		}
+		returned++
+	}
+	// a fresh Recv with nothing queued: its own full deadline, not a left-over of the earlier calls
+	t0 := verif.Now()
+	var err error
+	g := verif.Go("recv-fresh", func() { _, err = ep.RecvMsg() })
+	verif.Quiesce()
+	verif.Assert(!g.Done(), lab+"/recv-returns-at-once-with-nothing-queued")
+	verif.RunClockTo(t0 + D - 1)
+	verif.Assert(!g.Done(), lab+"/recv-failed-before-its-own-deadline-by-a-left-over-of-an-earlier-call")
+	verif.RunClockTo(t0 + D)
+	verif.Assert(g.Done() && err == mangos.ErrRecvTimeout, lab+"/recv-hangs-beyond-its-deadline")
+	verif.Reach("deadline-vs-arrival-checked")
+	sock.Close()
+}
+
 // VH18e_send_repeat: R send deadlines in a row expire against a stalled peer (WRITEQ-LEN 1), each at its own instant
 // and none before; then the peer reads again: a Send completes, what the peer gets are messages that were sent (each
 // at most once), nothing of a timed-out message arrives later, the connection was never dropped, and a normal
